@@ -1,2 +1,6 @@
 import UncModel.Basic
 import UncModel.Unicode
+import UncModel.AddChar
+import UncModel.Render
+import UncModel.Lemmas.UnicodeLemmas
+import UncModel.Props.C09
